@@ -369,7 +369,17 @@ pub fn explore(prog: &Program, scratch: &str, n: &mut u64, cap: usize, rng: &mut
     let mut complete = true;
     loop {
         let pf = prefix.clone();
-        let out = run_once(prog, scratch, n, |step, _run| if step < pf.len() { pf[step] } else { 0 })?;
+        // a stall (no controlled thread reached its next yield point within the scheduler's time limit) is only
+        // reported when the SAME schedule stalls again: a deadlock of the code is deterministic under a fixed
+        // schedule, a starved thread on a loaded machine is not
+        let mut out = run_once(prog, scratch, n, |step, _run| if step < pf.len() { pf[step] } else { 0 });
+        for _ in 0..2 {
+            if out.is_ok() {
+                break;
+            }
+            out = run_once(prog, scratch, n, |step, _run| if step < pf.len() { pf[step] } else { 0 });
+        }
+        let out = out?;
         count += 1;
         on(&out);
         // backtrack: choices actually taken = prefix ++ zeros
@@ -392,7 +402,16 @@ pub fn explore(prog: &Program, scratch: &str, n: &mut u64, cap: usize, rng: &mut
             // random schedules beyond the cap
             for _ in 0..(cap / 4).max(10) {
                 let mut r = rng.fork();
-                let out = run_once(prog, scratch, n, |_s, run| r.below(run.len()))?;
+                let r0 = r.clone();
+                let mut out = run_once(prog, scratch, n, |_s, run| r.below(run.len()));
+                for _ in 0..2 {
+                    if out.is_ok() {
+                        break;
+                    }
+                    let mut r1 = r0.clone();
+                    out = run_once(prog, scratch, n, |_s, run| r1.below(run.len()));
+                }
+                let out = out?;
                 count += 1;
                 on(&out);
             }
